@@ -166,6 +166,12 @@ def run_case(case: dict[str, Any]) -> dict[str, Any]:
                 if tzm:
                     # the same instant, written in the source's own (non-UTC) zone
                     ts = ts.astimezone(timezone(timedelta(minutes=tzm)))
+                tzz = case["series"][i].get("tz_zone") if i < len(case.get("series", [])) else None
+                if tzz:
+                    # ... a zone with daylight saving (the run straddles a clock change)
+                    from zoneinfo import ZoneInfo
+
+                    ts = ts.astimezone(ZoneInfo(tzz))
                 uid[0] += 1
                 my = float(uid[0])
                 if val_kind == "zero":
@@ -185,7 +191,8 @@ def run_case(case: dict[str, Any]) -> dict[str, Any]:
                 await asyncio.sleep(0)
                 await asyncio.sleep(0)
                 if val_kind in ("ok", "zero", "inf"):
-                    rec["arrivals"][i].append({"ts": ts, "value": my, "t_sent": now})
+                    # (the books are kept in UTC: datetimes that share a zone object compare by wall clock)
+                    rec["arrivals"][i].append({"ts": ts.astimezone(timezone.utc), "value": my, "t_sent": now})
 
         async def resample_forever() -> None:
             # like ComponentMetricsResamplingActor: restart resample() whenever it ends, after removing the
